@@ -404,9 +404,11 @@ func cmdBatch(args []string) {
 		}
 		// internal trouble in a minority of runs is reported but does not make the batch inconclusive
 		if ev.Runs == 0 || len(internal)*5 > ev.Runs {
+			os.RemoveAll(tmp) // os.Exit skips the deferred clean-up
 			os.Exit(2)
 		}
 	}
+	os.RemoveAll(tmp)
 	os.Exit(exit)
 }
 
